@@ -67,11 +67,37 @@ Inductive Ancestor : cls -> cls -> Prop :=
   | anc_refl c : Ancestor c c
   | anc_step c p d : parent c = Some p -> Ancestor p d -> Ancestor c d.
 
-(* isinstance(value, exception) where `exception` is a class or a tuple of classes *)
+(* isinstance(value, (d1, ..., dn)) for a flat tuple of classes: the handler clause `except (d1, ..., dn):` of Try *)
 Definition isinstance_any (c : cls) (ds : list cls) : bool := existsb (issubclass c) ds.
 
-(* Counter.count_exceptions(exception=Exception) *)
-Definition default_exceptions : list cls := [C_Exception].
+(* What Counter.count_exceptions(exception) is given and hands, unchanged, to ExceptionCounter, whose __exit__
+   evaluates isinstance(value, self._exception): a class, or a tuple whose elements are again classes or tuples,
+   nested to any depth - the empty tuple and repeated classes included.  (The same shape `except <spec>` accepts.) *)
+Inductive espec :=
+  | EClass (d : cls)
+  | ETuple (l : list espec).
+
+(* isinstance(value, spec) for an exception object of class k: CPython recurses into tuples, left to right *)
+Fixpoint isinstance_spec (k : cls) (e : espec) : bool :=
+  match e with
+  | EClass d => issubclass k d
+  | ETuple l => existsb (isinstance_spec k) l
+  end.
+
+(* the classes named anywhere in a spec, in order, repetitions kept *)
+Fixpoint spec_classes (e : espec) : list cls :=
+  match e with
+  | EClass d => [d]
+  | ETuple l => flat_map spec_classes l
+  end.
+
+(* specification side: what `except <spec>:` catches *)
+Inductive Matches (k : cls) : espec -> Prop :=
+  | m_class d : Ancestor k d -> Matches k (EClass d)
+  | m_tuple l e : In e l -> Matches k e -> Matches k (ETuple l).
+
+(* the default of the parameter: count_exceptions(exception=Exception) *)
+Definition default_exceptions : espec := EClass C_Exception.
 
 (* ---- outcomes ---- *)
 Inductive outcome := Ret (v : val) | Exn (c : cls) (o : val).   (* o = identity of the exception object *)
@@ -112,7 +138,7 @@ Inductive target := TObserve (m : mid) | TSet (g : mid).    (* Timer(metric, 'ob
 Definition target_mid (t : target) : mid := match t with TObserve m => m | TSet g => g end.
 
 Inductive cm :=
-  | CmCount (c : mid) (excs : list cls)     (* ExceptionCounter(counter, exception) *)
+  | CmCount (c : mid) (excs : espec)        (* ExceptionCounter(counter, exception) *)
   | CmTrack (g : mid)                       (* InprogressTracker(gauge) *)
   | CmTimer (t : tref) (tg : target).       (* a Timer object *)
 
@@ -142,7 +168,7 @@ Definition cm_exit (m : cm) (o : outcome) (s : st) : bool * st :=
   | CmCount c excs =>
       (false,                                                            (* return False *)
        match o with
-       | Exn k _ => if isinstance_any k excs then set_cnt s (upd (cnt s) c (cnt s c + 1)) else s
+       | Exn k _ => if isinstance_spec k excs then set_cnt s (upd (cnt s) c (cnt s c + 1)) else s
        | Ret _ => s                                                      (* isinstance(None, ...) is False *)
        end)
   | CmTrack g => (false, set_gau s (upd (gau s) g (gau s g - 1)%Z))      (* self._gauge.dec(); returns None *)
@@ -161,9 +187,15 @@ Definition with_stmt (m : cm) (blk : st -> outcome * st) (s : st) : outcome * st
 
 (* ---- wrappers as the application writes them ---- *)
 Inductive wrapper :=
-  | WCount (c : mid) (excs : list cls)    (* c.count_exceptions(excs) *)
+  | WCount (c : mid) (excs : espec)       (* the ExceptionCounter c.count_exceptions(...) returns *)
   | WTrack (g : mid)                      (* g.track_inprogress() *)
   | WTime (tg : target).                  (* m.time() *)
+
+(* Counter.count_exceptions(self, exception=Exception): `return ExceptionCounter(self, exception)`.
+   arg = None models the call without argument; an argument that is given is passed on as it is, whatever
+   its truth value (the empty tuple is false) *)
+Definition count_exceptions (c : mid) (arg : option espec) : wrapper :=
+  WCount c (match arg with Some e => e | None => default_exceptions end).
 
 (* What `wrapped(func, *args, **kwargs)` (decorator use) or `with m.xxx():` (block use) enters:
    ExceptionCounter / InprogressTracker enter themselves; Timer enters self._new_timer(), and m.time()
@@ -232,8 +264,8 @@ Fixpoint result (b : body) : outcome :=
   | WithHeld _ _ b1 => result b1
   end.
 
-Definition escapes_matching (b : body) (excs : list cls) : bool :=
-  match result b with Exn k _ => isinstance_any k excs | Ret _ => false end.
+Definition escapes_matching (b : body) (excs : espec) : bool :=
+  match result b with Exn k _ => isinstance_spec k excs | Ret _ => false end.
 
 (* f recursing k more times before running b: k+1 nested decorated calls *)
 Fixpoint recurse (k : nat) (w : wrapper) (b : body) : body :=
